@@ -17,6 +17,12 @@ Binding:
       namedtuples, colliding ints, wide sets).  All observations (value id, seed, insertion order,
       hash, tree as it iterated) are validated by TLC (ValueHash_Trace.tla): one hash per value
       unless the value is in a deviation class; equal serialisation <=> equal hash.
+  second seam, same law: in the same child every object is also RECORDED on a real RedunBackendDb
+      (record_value -> the hash it is stored under, get_value -> the value back), and the stable
+      witnesses run through a real Scheduler as a task result and a task argument
+      (CallNode.value_hash, Argument.value_hash, call_hash read back).  TLC requires the recorded
+      hash to be the value hash in every observation, the value to read back equal, and judges the
+      recorded hash by the same law; the deviation-class licence is never applied to this seam.
 """
 
 from __future__ import annotations
@@ -39,9 +45,11 @@ META = {
     "level_text": "TLC checks on every value tree of the bounded universe that the serialisation redun "
                   "hashes is independent of set iteration order exactly outside three named deviation "
                   "classes; every such tree and hundreds of larger random values are hashed by the real "
-                  "TypeRegistry.get_hash in child interpreters under several hash seeds and insertion "
-                  "orders, and TLC validates the recorded hashes for functional dependence on the value "
-                  "and against the serialisation model.",
+                  "TypeRegistry.get_hash and recorded by the real RedunBackendDb.record_value in child "
+                  "interpreters under several hash seeds and insertion orders (stable witnesses also as task "
+                  "results / arguments of a real Scheduler run), and TLC validates the value hashes and the "
+                  "recorded hashes for functional dependence on the value, for agreement with each other and "
+                  "against the serialisation model.",
     "level_note": "Hash seeds 0..k only (not the 2^32 seeds), a few insertion orders per value; leaves are "
                   "ints, strings and a few other scalars; values are built the same way in every child "
                   "(object identity / pickle memoisation is not varied); CPython 3.12 set tables.",
@@ -75,6 +83,8 @@ def fixed_witnesses() -> list:
         ("[{'a','b','c'}]", nv.N("list", 0, [nv.N("set", 0, abc)]), False),
         ("{'k': {'a','b'}}", nv.N("dict", 0, [L(K)], [nv.N("set", 0, [L(A), L(B)])]), False),
         ("{'a','b','c'} (top-level set)", nv.N("set", 0, abc), True),
+        ("{'a',...,'h'} (top-level set of 8 strings)", nv.N("set", 0, [L(100 + j) for j in range(8)]), True),
+        ("{0, 8, 16} (top-level set of colliding ints)", nv.N("set", 0, [L(0), L(8), L(16)]), True),
         ("{1, 2, 3} (top-level set of ints)", nv.N("set", 0, [L(1), L(2), L(3)]), True),
         ("[{1, 2, 3}] (nested set of ints)", nv.N("list", 0, [nv.N("set", 0, [L(1), L(2), L(3)])]), True),
         ("frozenset({1, 2, 3})", nv.N("fset", 0, [L(1), L(2), L(3)]), True),
@@ -163,14 +173,21 @@ def has_big_set(tree: dict) -> bool:
 # --------------------------------------------------------------------------------------------
 # child interpreters
 # --------------------------------------------------------------------------------------------
-def hash_in_children(ctx: Ctx, values: list, seeds: list, norders: int) -> dict:
-    """values: [(id, tree)] -> {id: [ {seed, ord, h, o} ]} from the REAL TypeRegistry.get_hash."""
+def hash_in_children(ctx: Ctx, values: list, seeds: list, norders: int, wf: list | None = None) -> dict:
+    """
+    values: [(id, tree)] -> {id: [ {seed, ord, h, r, g, c, o} ]} from the REAL code, one child
+    interpreter per hash seed: h = TypeRegistry.get_hash, r = the hash RedunBackendDb.record_value
+    stored the object under, g = backend.get_value(r) gave an equal value back.
+    wf: [(id, tree)]: values that additionally go through a real Scheduler run as a task result and
+    a task argument; their CallNode.value_hash / Argument.value_hash are two more observations
+    (ord 100 / 101) with the producing job's call hash in c.
+    """
     jobs = []
     for vid, tree in values:
         rng = random.Random(f"{ctx.seed}/{vid}")
         jobs.append({"id": vid, "ords": [tree] + [shuffled(rng, tree) for _ in range(norders - 1)]})
     inp = ctx.tmp("hash_in.json")
-    inp.write_text(json.dumps(jobs))
+    inp.write_text(json.dumps({"jobs": jobs, "wf": [{"id": vid, "tree": t} for vid, t in (wf or [])]}))
     procs = []
     for s in seeds:
         env = dict(os.environ)
@@ -184,10 +201,15 @@ def hash_in_children(ctx: Ctx, values: list, seeds: list, norders: int) -> dict:
         out, _ = p.communicate(timeout=900)
         if p.returncode != 0:
             raise MachineryError(f"hash child (seed {s}) failed rc={p.returncode}:\n{out[-2000:]}")
-        for r in json.loads(outp.read_text()):
-            for h, o, ords in r["obs"]:
+        res = json.loads(outp.read_text())
+        for r in res["jobs"]:
+            for h, rh, g, o, ords in r["obs"]:
                 for oi in ords:
-                    obs[r["id"]].append({"seed": s, "ord": oi, "h": h, "o": o})
+                    obs[r["id"]].append({"seed": s, "ord": oi, "h": h, "r": rh, "g": g, "c": "", "o": o})
+        for r in res["wf"]:
+            for oi, key in ((100, "result"), (101, "arg")):
+                obs[r["id"]].append({"seed": s, "ord": oi, "h": r["h"], "r": r[key], "g": 1, "c": r["call"],
+                                     "o": r["o"]})
     return obs
 
 
@@ -198,7 +220,7 @@ def validate(ctx: Ctx, records: list, what: str) -> dict:
     for r in records:
         seen, keep = set(), []
         for o in r["obs"]:
-            key = (o["h"], json.dumps(o["o"], sort_keys=True))
+            key = (o["h"], o["r"], o["g"], o["c"], json.dumps(o["o"], sort_keys=True))
             if key not in seen:
                 seen.add(key)
                 keep.append(o)
@@ -305,25 +327,41 @@ def run(ctx: Ctx) -> None:
     # ---- 4. the real code, in child interpreters ---------------------------------------------------
     seeds = ctx.pick([0, 1, 2], [0, 1, 2, 3, 77, 12345])
     norders = ctx.pick(3, 4)
-    obs = hash_in_children(ctx, [(vid, t) for vid, t, _ in values], seeds, norders)
+    # the stable witnesses also go through a real workflow (task result + task argument)
+    wf_ids = {i + 1 for i, (_, _, st) in enumerate(fixed_witnesses()) if st}
+    obs = hash_in_children(ctx, [(vid, t) for vid, t, _ in values], seeds, norders,
+                           wf=[(vid, t) for vid, t, _ in values if vid in wf_ids])
     _tick(ctx, 'children done')
     ctx.note("seeds", seeds)
     ctx.note("insertion_orders_per_value", norders)
+    ctx.note("seams", "TypeRegistry.get_hash; RedunBackendDb.record_value + get_value (every observation); "
+                      "CallNode.value_hash / Argument.value_hash / call_hash after Scheduler.run "
+                      f"({len(wf_ids)} stable witnesses x {len(seeds)} seeds)")
     records = [{"id": vid, "obs": obs[vid]} for vid, _, _ in values]
     for rec in records:
-        ctx.require(len(rec["obs"]) == len(seeds) * norders, f"value {rec['id']}: {len(rec['obs'])} observations")
-    # negative control: two recordings of a set-free value in the very same iteration order but with
-    # different hashes -> TLC must report two hashes, no licence, and "same Ser, different hash"
+        want = len(seeds) * (norders + (2 if rec["id"] in wf_ids else 0))
+        ctx.require(len(rec["obs"]) == want, f"value {rec['id']}: {len(rec['obs'])} observations, expected {want}")
+    # negative controls on a set-free value recorded twice in the very same iteration order:
+    #  (a) different value hashes -> two hashes, no licence, "same Ser, different hash"
+    #  (b) the hash it was RECORDED under differs from its value hash in one observation
+    #  (c) one observation whose recorded value did not read back equal
     noset = next(i for i, (n, _, _) in enumerate(fixed_witnesses()) if "no set" in n)
-    o0 = records[noset]["obs"][0]
-    bad = {"id": 0, "obs": [dict(o0), dict(o0, seed=99, h="0" * 40)]}
-    verdicts = validate(ctx, records + [bad], "all")
+    o0 = next(o for o in records[noset]["obs"] if o["ord"] == 0)
+    bad_a = {"id": 0, "obs": [dict(o0), dict(o0, seed=99, h="0" * 40, r="0" * 40)]}
+    bad_b = {"id": -1, "obs": [dict(o0), dict(o0, seed=99, r="1" * 40)]}
+    bad_c = {"id": -2, "obs": [dict(o0), dict(o0, seed=99, g=0)]}
+    verdicts = validate(ctx, records + [bad_a, bad_b, bad_c], "all")
     _tick(ctx, 'trace validated')
     pool.shutdown()
-    vb = verdicts[len(records) + 1]
-    ctx.negative_control(vb[1] == 2 and vb[7] == [] and vb[3] == 0,
-                         "a stable value with one recorded hash replaced must be rejected by TLC "
+    va, vb, vc = (verdicts[len(records) + k] for k in (1, 2, 3))
+    ctx.negative_control(va[1] == 2 and va[7] == [] and va[3] == 0,
+                         "a stable value with one value hash replaced must be rejected by TLC "
                          "(two hashes, no deviation class, equal serialisation with different hash)")
+    ctx.negative_control(vb[1] == 1 and vb[8] == 2 and vb[9] == 0 and vb[10] == 0,
+                         "a value recorded under another hash than its value hash must be rejected by TLC "
+                         "(two recorded hashes, equal serialisation with different recorded hash, disagreement)")
+    ctx.negative_control(vc[11] == 0 and vc[10] == 1,
+                         "a recorded value that does not read back equal must be rejected by TLC")
 
     # ---- 5. judge ------------------------------------------------------------------------------
     reported: Counter = Counter()
@@ -332,7 +370,7 @@ def run(ctx: Ctx) -> None:
     by_id = {vid: (t, src) for vid, t, src in values}
     witness_obs = {}
     for idx, rec in enumerate(records, start=1):
-        vid, nh, same, fwd, bwd, stable, wf, classes = verdicts[idx]
+        vid, nh, same, fwd, bwd, stable, wf, classes, nr, fwd_r, agree, back, nc = verdicts[idx]
         tree, src = by_id[vid]
         ctx.count_eval()
         ctx.count_impl_trace(len(rec["obs"]))
@@ -345,10 +383,11 @@ def run(ctx: Ctx) -> None:
         if vid in model_by_id and tuple(sorted(classes)) != model_by_id[vid]:
             raise MachineryError(f"value {vid}: classes differ between ValueHash_Gen and ValueHash_Trace")
         if src.startswith("witness"):
-            witness_obs[src[8:]] = {"distinct_hashes": nh, "classes": classes,
+            witness_obs[src[8:]] = {"distinct_hashes": nh, "classes": classes, "distinct_recorded_hashes": nr,
+                                    "recorded_is_value_hash": bool(agree), "distinct_call_hashes": nc,
                                     "by_seed": {str(o["seed"]): o["h"][:10] for o in rec["obs"] if o["ord"] == 0}}
-        replay = {"tree": tree, "source": src, "seeds": seeds, "norders": norders,
-                  "hashes": sorted({(o["seed"], o["ord"], o["h"]) for o in rec["obs"]})}
+        replay = {"tree": tree, "source": src, "seeds": seeds, "norders": norders, "wf": vid in wf_ids,
+                  "hashes": sorted({(o["seed"], o["ord"], o["h"], o["r"]) for o in rec["obs"]})}
         if nh > 1:
             stats["varying"] += 1
             if classes:
@@ -372,6 +411,34 @@ def run(ctx: Ctx) -> None:
             if unkeyed <= 10:
                 ctx.violation(f"two observations with the same iteration orders (same Ser) have different hashes: "
                               f"{nv.build(tree, 'hash')!r}", replay, key=None)
+        # ---- the recording path: second observation of the same law ----
+        # (judged on its own: it never borrows the licence of a deviation class, because whenever the
+        #  recorded hash IS the value hash its variation is the one already reported above)
+        if not agree:
+            stats["recorded_hash_differs_from_value_hash"] += 1
+            unkeyed += 1
+            if unkeyed <= 10:
+                w = next(o for o in rec["obs"] if o["r"] != o["h"])
+                seam = {100: "CallNode.value_hash of the task that returned it",
+                        101: "Argument.value_hash of the task that received it"}.get(w["ord"], "record_value")
+                ctx.violation(f"the hash a value is RECORDED under ({seam}: {w['r'][:12]}, PYTHONHASHSEED={w['seed']}) "
+                              f"is not its value hash (TypeRegistry.get_hash: {w['h'][:12]}); {nr} distinct recorded "
+                              f"hashes vs {nh} value hashes over seeds {seeds} x {norders} insertion orders for "
+                              f"{nv.build(tree, 'hash')!r}", replay, key=None)
+        elif not fwd_r and fwd:
+            raise MachineryError(f"value {vid}: r = h everywhere but the verdicts on r and h differ")
+        if not back:
+            stats["recorded_value_not_read_back_equal"] += 1
+            unkeyed += 1
+            if unkeyed <= 10:
+                ctx.violation(f"backend.get_value(hash returned by record_value) does not give back an equal value "
+                              f"for {nv.build(tree, 'hash')!r}", replay, key=None)
+        if nc > 1 and not classes:
+            stats["call_hash_varies"] += 1
+            unkeyed += 1
+            if unkeyed <= 10:
+                ctx.violation(f"the call hash of a job returning {nv.build(tree, 'hash')!r} differs between "
+                              f"interpreters ({nc} call hashes over seeds {seeds})", replay, key=None)
         if not bwd:
             stats["asbuilt_drift_same_hash_other_order"] += 1
         if not stable:
@@ -391,12 +458,21 @@ def replay(ctx: Ctx, rec: dict) -> None:
     r = rec["replay"]
     if "tree" not in r:
         return run(ctx)
-    obs = hash_in_children(ctx, [(1, r["tree"])], r.get("seeds", [0, 1, 2]), r.get("norders", 3))
+    obs = hash_in_children(ctx, [(1, r["tree"])], r.get("seeds", [0, 1, 2]), r.get("norders", 3),
+                           wf=[(1, r["tree"])] if r.get("wf") else None)
     verdicts = validate(ctx, [{"id": 1, "obs": obs[1]}], "replay")
-    _, nh, same, fwd, bwd, stable, wf, classes = verdicts[1]
+    _, nh, same, fwd, bwd, stable, wf, classes, nr, fwd_r, agree, back, nc = verdicts[1]
     if nh > 1:
         if classes:
             for c in classes:
                 ctx.violation(f"{KEYS[c]}: {nh} different hashes", r, key=c)
         else:
             ctx.violation(f"value hash varies ({nh} hashes) without a deviation class", r, key=None)
+    elif not fwd:
+        ctx.violation("two observations with the same iteration orders have different hashes", r, key=None)
+    if not agree:
+        ctx.violation(f"recorded hash differs from the value hash ({nr} recorded hashes, {nh} value hashes)", r, key=None)
+    if not back:
+        ctx.violation("recorded value does not read back equal", r, key=None)
+    if nc > 1 and not classes:
+        ctx.violation(f"call hash varies ({nc})", r, key=None)
